@@ -248,6 +248,12 @@ def startsGroup : List Tok → Bool
   | .sym '[' :: _ => true
   | _ => false
 
+/-- `if (tok->kind == TOK_VOID && get_following_char(tok) == ')') next_token(tok)`: the
+character after `void` and any blanks is `)` exactly when the next token is `)`. -/
+def dropVoidOnly : List Tok → List Tok
+  | .kw .void_ :: .sym ')' :: r' => .sym ')' :: r'
+  | ts => ts
+
 def expectClose : List Tok → Except Err (List Tok)
   | .sym ')' :: r => .ok r
   | _ => .error .parse
@@ -392,9 +398,7 @@ def parens (ctx : Ctx) : Nat → Bool → Bool → List Tok →
         let (_, fns, abi, r) ← parens ctx f false abi r
         pure (some g, fns, abi, r)
       else do
-        let r : List Tok := match r with
-          | .kw .void_ :: .sym ')' :: r' => Tok.sym ')' :: r'     -- `(void)`
-          | _ => r
+        let r := dropVoidOnly r                               -- `(void)`
         let (args, ell, r) ←
           match r with
           | .sym ')' :: _ => pure ([], false, r)
